@@ -14,7 +14,12 @@ import (
 // one call) after a successful build (R10.1/R10.2, owned by C10).
 func sharedWriteRules(e *Env) {
 	r := e.R
-	if gen := e.P.Func("internal/cmd/runner", "StepCodeGenerator.Run"); gen != nil && len(findCalls(gen, "os.WriteFile", false)) == 1 {
+	gen := e.P.Func("internal/cmd/runner", "StepCodeGenerator.Run")
+	okSite := false
+	if gen != nil {
+		_, _, _, _, okSite = writeSite(gen)
+	}
+	if okSite {
 		c10Write(e, gen)
 	} else {
 		r.Violate("R10.2", "internal/cmd/runner.StepCodeGenerator.Run#single-write", "the code generator does not write the output with exactly one os.WriteFile: whether the file is truncated and complete on every path is not decided (see C10)", nil)
